@@ -231,7 +231,10 @@ def run(tier, seed):
     BATCH = 150
     for i in range(0, len(groups), BATCH):
         chunk = groups[i:i + BATCH]
-        r = impl.call("logRoundtrip", Groups=chunk)
+        # every third batch runs as if the process lived in another time zone: the format is UTC whatever the zone
+        zone = [0, 5 * 3600, -(9 * 3600 + 1800)][(i // BATCH) % 3]
+        rep.count("roundtrip-batches: process zone %s" % ("UTC" if zone == 0 else "UTC%+.1fh" % (zone / 3600)))
+        r = impl.call("logRoundtrip", Groups=chunk, Zone=zone)
         res = r.get("res")
         if res is None:
             kdis.append({"harness": r})
